@@ -39,7 +39,7 @@ func (swisscard) Generate(r *rand.Rand, o Opts) *Statement {
 	day := randStart(r)
 	for i := 0; i < n; i++ {
 		day += cal.Day(r.Intn(3))
-		amt := randCents(r)
+		amt := randCentsOrZero(r, st)
 		if amt.V >= 100000 {
 			st.feature("thousands-separator")
 		}
